@@ -648,12 +648,15 @@ fn cross_check(which: Which, spec: &SearchSpec, our_unique: u64, our_violations:
     };
     let their_unique = v["unique_states"].as_u64().unwrap_or(0);
     let their_discoveries = v["discoveries"].as_array().map(|a| a.len()).unwrap_or(0);
-    if their_unique != our_unique || (their_discoveries > 0) != (our_violations > 0) {
+    // stateright stops at the first discovery, so state counts are only comparable when nothing is violated
+    let counts_differ = our_violations == 0 && their_unique != our_unique;
+    if counts_differ || (their_discoveries > 0) != (our_violations > 0) {
         println!(
             "MACHINERY-ERROR: explorers disagree on {} depth {}: harness BFS {} unique states / {} violations, stateright {} unique states / {} discoveries",
             spec.name, spec.depth, our_unique, our_violations, their_unique, their_discoveries
         );
         std::process::exit(2);
     }
-    Some(json!({"spec": spec.name, "depth": spec.depth, "harness_unique_states": our_unique, "stateright": v, "agree": true}))
+    Some(json!({"spec": spec.name, "depth": spec.depth, "harness_unique_states": our_unique, "harness_violations": our_violations, "stateright": v,
+        "agree": true, "compared": if our_violations == 0 { "unique-state count and verdict" } else { "verdict only (stateright stops at its first discovery)" }}))
 }
